@@ -856,30 +856,60 @@ class FdCase(Case):
     """fdspawn on a pty master / a socket descriptor / a pipe; SocketSpawn on a socketpair or a
     loopback TCP connection.  The 'child' is the peer end held by the harness."""
 
-    def __init__(self, workdir, transport='fd', kind='sockfd'):
-        Case.__init__(self, workdir)
+    def __init__(self, workdir, transport='fd', kind='sockfd', log='none', low=None):
+        """low: None, or 0 / 1 / 2 - the wrapped descriptor gets THAT number (the program runs without
+        that standard stream, so the next thing it opens lands there).  Only in the helper process
+        (lifecases.helper_main), which has closed the number before this case starts."""
+        Case.__init__(self, workdir, log)
         self.transport = transport
         self.kind = kind
+        self.low = low
         self.keep = []
         self.peer_open = True
+        blocker = None
+        if low is not None:
+            # keep the number out of the way while the peer end etc. are created
+            blocker = os.open(os.devnull, os.O_RDONLY)
+            if blocker != low:
+                os.close(blocker)
+                raise HarnessError('descriptor %d is not the lowest free number (got %d)' % (low, blocker))
+
+        def place(fd):
+            """the descriptor moves to the low number (dup2 replaces the blocker atomically)"""
+            if low is None:
+                return fd
+            os.dup2(fd, low, inheritable=False)
+            os.close(fd)
+            return low
+
+        def place_sock(a):
+            if low is None:
+                return a
+            os.dup2(a.fileno(), low, inheritable=False)
+            a.close()
+            return socket.socket(fileno=low)
+
         if kind == 'ptyfd':
             import pty, tty
             m, s = pty.openpty()
             tty.setraw(s)
+            m = place(m)
             self.fdnum, self.peer_close = m, (lambda: os.close(s))
             self.owner_close = lambda: os.close(m)
         elif kind == 'pipe':
             r, w = os.pipe()
+            r = place(r)
             self.fdnum, self.peer_close = r, (lambda: os.close(w))
             self.owner_close = lambda: os.close(r)
         elif kind == 'sockfd':
             a, b = socket.socketpair()
-            fd = a.detach()               # a bare descriptor: no Python object owns the number
+            fd = place(a.detach())        # a bare descriptor: no Python object owns the number
             self.keep = [b]
             self.fdnum, self.peer_close = fd, b.close
             self.owner_close = lambda: os.close(fd)
         elif kind == 'sockpair':
             a, b = socket.socketpair()
+            a = place_sock(a)
             self.keep = [a, b]
             self.fdnum, self.peer_close = a.fileno(), b.close
             self.owner_close = a.close
@@ -890,19 +920,24 @@ class FdCase(Case):
             a = socket.create_connection(srv.getsockname())
             b, _ = srv.accept()
             srv.close()
+            a = place_sock(a)
             self.keep = [a, b]
             self.fdnum, self.peer_close = a.fileno(), b.close
             self.owner_close = a.close
         else:
             raise HarnessError(kind)
+        if low is not None and self.fdnum != low:
+            raise HarnessError('the descriptor did not get number %d' % low)
         self.fd_ino0 = fd_ino(self.fdnum)
+        self.open_log()
         if transport == 'fd':
             self.child = pexpect.fdpexpect.fdspawn(self.fdnum, timeout=5)
         else:
             self.child = pexpect.socket_pexpect.SocketSpawn(self.keep[0], timeout=5)
             self.READ_TIMEOUT = 0.01
+        self.attach_log(self.child)
         self.child.delayafterread = None
-        self.events.append({'e': 'init', 'tr': transport, 'disp': 'default', 'kind': kind})
+        self.events.append(self.init_event(kind=kind, low=-1 if low is None else low))
 
     def env(self, action, value):
         if action == 'peerclose':
@@ -914,12 +949,14 @@ class FdCase(Case):
             b.setsockopt(socket.SOL_SOCKET, socket.SO_LINGER, struct.pack('ii', 1, 0))
             b.close()
             self.peer_open = False
+        elif action == 'logclose':
+            self.close_log()
         else:
             raise HarnessError(action)
 
     def observe(self):
         c = self.child
-        o = {'proc': 'run', 'fk': 'none', 'fv': -1, 'dfd': -1, 'fd': self.fd_state(), 'es': -1, 'ss': -1, 'sk': 'none', 'sv': -1,
+        o = {'proc': 'run', 'fk': 'none', 'fv': -1, 'fc': False, 'sc': False, 'dfd': -1, 'fd': self.fd_state(), 'es': -1, 'ss': -1, 'sk': 'none', 'sv': -1,
              'term': False, 'pclosed': False}
         if c is None:
             o.update(gone=True, closed=False, fdv='m1', eof=False)
